@@ -149,6 +149,7 @@ func C14(c *run.Ctx) {
 		name string
 		// relation of auth_time to requested_at, in seconds (auth - requested); zeroAuth: no auth_time
 		authOff  int
+		subMs    int // additional sub-second offset of auth_time, milliseconds
 		zeroAuth bool
 		emptySub bool
 		preset   time.Duration // pre-set expiry (from now), 0 none
@@ -156,6 +157,7 @@ func C14(c *run.Ctx) {
 		custom   bool
 	}
 	svs := []sessVar{{name: "plain"}, {name: "auth-100s-before", authOff: -100}, {name: "auth-100s-after", authOff: 100}, {name: "no-auth-time", zeroAuth: true},
+		{name: "auth-500ms-before", subMs: -500}, {name: "auth-500ms-after", subMs: 500}, {name: "auth-50.5s-before", authOff: -50, subMs: -500},
 		{name: "empty-subject", emptySub: true}, {name: "preset-expiry-10m", preset: 10 * time.Minute}, {name: "preset-audience", extraAud: true}, {name: "custom-claims", custom: true}}
 	type reqVar struct {
 		name   string
@@ -163,6 +165,7 @@ func C14(c *run.Ctx) {
 		// satisfied decides from the session variant whether the request's OIDC constraints are met; -1 unspecified
 		satisfied func(s sessVar) int
 	}
+	off := func(s sessVar) int { return s.authOff*1000 + s.subMs } // auth_time - requested_at, milliseconds
 	b2i := func(b bool) int {
 		if b {
 			return 1
@@ -175,7 +178,7 @@ func C14(c *run.Ctx) {
 			if s.zeroAuth {
 				return 0
 			}
-			return b2i(s.authOff+50 >= 0)
+			return b2i(off(s)+50000 >= 0)
 		}},
 		{"max_age=1000", url.Values{"max_age": {"1000"}}, func(s sessVar) int {
 			if s.zeroAuth {
@@ -187,25 +190,25 @@ func C14(c *run.Ctx) {
 			if s.zeroAuth {
 				return 0
 			}
-			return b2i(s.authOff <= 0)
+			return b2i(off(s) <= 0)
 		}},
 		{"prompt=login", url.Values{"prompt": {"login"}}, func(s sessVar) int {
 			if s.zeroAuth {
 				return 0
 			}
-			return b2i(s.authOff >= 0)
+			return b2i(off(s) >= 0)
 		}},
 		{"prompt=login+consent", url.Values{"prompt": {"login consent"}}, func(s sessVar) int {
 			if s.zeroAuth {
 				return 0
 			}
-			return b2i(s.authOff >= 0)
+			return b2i(off(s) >= 0)
 		}},
 		{"prompt=select_account+login", url.Values{"prompt": {"select_account login"}}, func(s sessVar) int {
 			if s.zeroAuth {
 				return 0
 			}
-			return b2i(s.authOff >= 0)
+			return b2i(off(s) >= 0)
 		}},
 		{"prompt=none+login", url.Values{"prompt": {"none login"}}, func(s sessVar) int { return 0 }},
 		{"prompt=unknown", url.Values{"prompt": {"sudo"}}, func(s sessVar) int { return 0 }},
@@ -277,7 +280,7 @@ func C14(c *run.Ctx) {
 						sessMut := func(s *world.Sess) {
 							now := time.Now().UTC()
 							s.Claims.RequestedAt = now
-							s.Claims.AuthTime = now.Add(time.Duration(sv.authOff) * time.Second)
+							s.Claims.AuthTime = now.Add(time.Duration(sv.authOff)*time.Second + time.Duration(sv.subMs)*time.Millisecond)
 							if sv.zeroAuth {
 								s.Claims.AuthTime = time.Time{}
 							}
